@@ -1,7 +1,7 @@
 """C09 — settings switches are honoured everywhere and are orthogonal."""
 import re
 from ..core import q
-from ..core.q import expect_term, site, peel
+from ..core.q import expect_term, expect_fn, site, peel
 from ..core.ir import walk, strip
 from ..core.norm import Norm, show, cshort
 from ..core import templates as T
@@ -107,6 +107,26 @@ def check(ctx, floors=True, only_literals=False):
              or "TypeGeneratorSettings as std::default::Default>::default" in p for p in ctors) and len(ctors) >= 1
     ctx.expect(ok, "C09.2", "ctor/AllocCratePath::Std", "", "AllocCratePath::Std is constructed only as a default (its own Default impl, the default settings) and copied by the derived Clone",
                "AllocCratePath::Std constructed in %s" % ctors)
+    # C09.2b the switches as the user sets them: every builder writes exactly its own field from its own argument, and the defaults are the
+    # documented ones (docs on, codec attributes off, no optional paths, root `types`)
+    BUILDER_TERMS = {
+        "TypeGeneratorSettings::compact_as_type_path": "mut[P0;compact_as_type_path=Some(P1)]",
+        "TypeGeneratorSettings::compact_type_path": "mut[P0;compact_type_path=Some(P1)]",
+        "TypeGeneratorSettings::decoded_bits_type_path": "mut[P0;decoded_bits_type_path=Some(P1)]",
+        "TypeGeneratorSettings::should_gen_docs": "mut[P0;should_gen_docs=P1]",
+        "TypeGeneratorSettings::insert_codec_attributes": "mut[P0;insert_codec_attributes=true]",
+        "TypeGeneratorSettings::type_mod_name": "mut[P0;types_mod_ident=syn::parse_str(P1)@v1::Ok.0]",
+    }
+    for suf, exp in BUILDER_TERMS.items():
+        expect_fn(ctx, "C09.2", "settings/" + suf.split("::")[-1], suf, exp, "the builder sets its own field, and only that, from its argument", "scale_typegen")
+    dflt = [b for b in q.fn_by_suffix(P, "std::default::Default>::default", "scale_typegen") if "TypeGeneratorSettings as" in b["path"]]
+    if len(dflt) == 1:
+        expect_term(ctx, "C09.2", "settings/default", dflt[0]["sp"], Norm(dflt[0]).term(dflt[0]["body"]),
+                    "settings::TypeGeneratorSettings{alloc_crate_path:Default::default(),compact_as_type_path:v1::None,compact_type_path:v1::None,decoded_bits_type_path:v1::None,"
+                    "derives:DerivesRegistry::new(),insert_codec_attributes:false,should_gen_docs:true,substitutes:TypeSubstitutes::new(),types_mod_ident:T[types]()}",
+                    "defaults: root `types`, docs on, codec attributes off, no compact / bits paths, empty derives and substitutes, std alloc path")
+    else:
+        ctx.bad("C09.2", "missing-anchor/Default for TypeGeneratorSettings", "", "default settings not found")
     # C09.3 alloc-rooted templates
     n_alloc = 0
     for b, node, items, kind in tpls:
